@@ -575,3 +575,23 @@ def find_violations(pred, constraints, limit=50, stats=None):
 def reset():
     GUARD_REG.clear()
     ALL_NODES.clear()
+
+
+def possible_indices(node, constraints):
+    """over-approximation of the value indices `node` can take when all constraints are true"""
+    cons = [c for c in constraints if isinstance(c, Node)]
+    if any((not isinstance(c, Node)) and (not c) for c in constraints):
+        return []
+    targets = [node] + cons
+    cut, exact = base_cut(targets)
+    if grid_size(cut) > 200_000:
+        cut, exact = best_cut(targets, MAX_CUT_GRID)
+    if grid_size(cut) > MAX_CUT_GRID:
+        return list(range(len(node.values)))
+    arrs = evaluate(targets, cut)
+    ok = np.array(True)
+    for c, a in zip(cons, arrs[1:]):
+        ok = ok & truth_array(c, a)
+    shape = np.broadcast_shapes(arrs[0].shape, ok.shape)
+    idx = np.broadcast_to(arrs[0], shape)[np.broadcast_to(ok, shape)]
+    return sorted(set(int(i) for i in np.unique(idx)))
